@@ -28,9 +28,24 @@ CHECKS = {
  "C09": ("must-pass-through (post-dominance over success exits) on enumerated SSA paths, with must-effect helper summaries",
          "Decides that the temp file is fsynced (error checked) before it becomes visible and that after every rename/unlink/creating-open of a user file every success exit is preceded by fsync of the base directory.",
          "Not decided: the file system honouring the persistence model; Remove has no error result, so a failing directory fsync there cannot be reported."),
+ "C10": ("goroutine-role analysis over the VTA call graph + inclusion-based channel points-to + wait-for graph; pairing and exhaustiveness rules on enumerated SSA paths",
+         "Decides structural preconditions of deadlock freedom for every blocking channel operation × creation site: no single-instance goroutine waits on a channel only it serves (found and repaired: the login-triggered upgrade send into the dispatcher's own queue), no wait-for cycle besides the request/response rendezvous, every request answered exactly once on a fresh private channel, dispatcher loop without exit and with a case per queue, nothing slow reachable from the dispatcher/hooks goroutine without crossing `go`.",
+         "Not decided: actual schedules, slowness vs wedge, library internals, panics other than the known preconditions."),
+ "C11": ("role confinement (who-may-call over goroutine roles), pairing rules, guarded-call rule on the dispatcher's loop paths",
+         "Decides the single-writer structure behind linearizability: all store-library access runs only in the dispatcher goroutine, each operation answers on its request's private channel, no goroutine is spawned from a dispatcher case, reload/swap only in the dispatcher, and the one internally generated write (queued hash upgrade) is atomic with a same-turn re-authentication (found and repaired).",
+         "Not decided: real-time histories as such, multi-process access, library races."),
+ "C12": ("operand-identity and guarded-send rules on enumerated SSA paths; constructor mode-switch table; shared C11.3 rule",
+         "Decides: upgradeable == (Default != record's parameter-set id); enqueue only under ok ∧ upgradeable ∧ queue configured, with the login's credentials; mode switch \"\"→nil / local→update queue / URL→remote upgrader; writes use hasher and id of the same Default and go through the ordinary (policy-checked) update; rewrite only for a password valid at rewrite time.",
+         "Not decided: liveness of the rewrite, the remote master."),
  "C15": ("effect analysis over the whole-program call graph + who-may-call + cleanup pairing on enumerated paths (incl. deferred closures)",
          "Decides: read-only API and authentication-only frontends reach no FS-mutating primitive / store mutator; set-admin = stat+rename+dir-fsync; aux copy on every path; every failing exit after the creating open removes the reservation; no failing exit after the commit point (two inherent fsync-after-rename exits are listed as known findings).",
          "Not decided: byte-level directory equality at run time; which syscalls fail when."),
+ "C17": ("must-pass-through guard rule on enumerated SSA paths, who-may-call funnel, guarded-return rules on the policy constructors, comparator table agreement",
+         "Decides: every library write in the agent is dominated by s.policy.Check(password, username) ok ∧ err==nil on the very values written; the three writers have no other caller; policy construction errors are fatal before the dispatcher starts; accepting paths of the condition parser have all four validations; comparator functions and kind mapping are as documented.",
+         "Not decided: zxcvbn's scoring; whether a given password meets a threshold."),
+ "C19": ("notify/success pairing on enumerated SSA paths; per-iteration transition-table check of the hooks loop; guard and shape rules for hook execution",
+         "Decides: notify exactly on successful mutations; the pending-counter transition table of the rate limiter on every loop-iteration path (leading edge at 0, trailing edge iff pending>1, reset); eligibility guards before any exec; process shape (arg, env, start-not-wait, watchdog).",
+         "Not decided: timing/intervals, real process behaviour, exec-time races."),
  "C16": ("loop-iteration path analysis of Check, guarded-call/guarded-return rules, AST+types exhaustiveness over the CLI command table",
          "Decides the guard structure that makes the consistency check exact per entry (extension test, symmetric duplicate test, result cleared only under valid∧admin∧supported), Init-only-on-empty, add/update/set-admin existence guards with O_CREATE|O_EXCL, temp cleanup, and that all 8 gated CLI commands use only the store returned by openAndCheck (Check()==nil or !do-check).",
          "Not decided: exactness over every directory content as a whole, invariance under all histories."),
